@@ -271,7 +271,7 @@ fn make_case_s(timeout: Option<u32>, fail: bool, durs: &[u32], mailbox: Mailbox,
         desc,
         exec: ExecCfg { horizon: 200, ..ExecCfg::default() },
         bound: None,
-        scene: Box::new(ProgScene {
+        scene: Box::new(ProgScene { variant: crate::progscene::current_variant(),
             spawn: SpawnCfg { mailbox, strat, timeout: timeout.map(|t| (t, fail)) },
             attach: Attach::None,
             roles: vec![role],
